@@ -171,6 +171,19 @@ func ruleOrderingGoroutineLatch(c *Check, p *Program, rule string) {
 					}
 				}
 			}
+			if !latched {
+				// or the result goes into the latch directly, under the test that the latch is still empty (storing a
+				// nil result over nil changes nothing)
+				for _, r := range *ev.Referrers() {
+					if st, ok := r.(*ssa.Store); ok && lastField(st.Addr) == "Blocks.err" && st.Val == ev {
+						for _, a := range atomsOfBlock(st.Block()) {
+							if a.Kind == "errnil" && a.Val && loadField(a.V) == "Blocks.err" {
+								latched = true
+							}
+						}
+					}
+				}
+			}
 			c.Cond(latched, rule, "initW.goroutine#write-error-latched", p.InstrPos(ci), "a sink error in the ordering goroutine is stored in Blocks.err", "stored under err != nil", "the error of block.Write is not stored into Blocks.err")
 		}
 	}
